@@ -9,6 +9,7 @@ hash function / prefix / suffix size / device kind / fake multi-device layout / 
 import os
 
 from .. import core, treegen
+from . import grp_common
 
 HASH_FNS = ["metro", "xxhash", "blake3", "sha256", "sha512", "sha3-256", "sha3-512"]
 THREAD_SPECS = [["--threads", "1"], ["--threads", "main:1"], ["--threads", "default:1,1"], ["--threads", "ssd:64"],
@@ -150,3 +151,7 @@ def run(ctx):
         check("cache=first", "partition", ["--cache"], {})
         check("cache=second", "partition", ["--cache"], {})
         ctx.sample({"tree": ti, "files": len(tree.files), "roots": len(roots), "groups": len(base_groups), "opts": opts})
+    # model-level hook (engine G): the extracted model, which Props_C13.v is about, under other nondeterminism records and
+    # scan orders must print the body fclones::group_files returned
+    grp_common.model_schedule_check(ctx, ctx.pick(40, 400))
+
